@@ -4,6 +4,7 @@ package processor
 
 import (
 	"context"
+	"encoding/binary"
 	"encoding/json"
 	"fmt"
 	"strconv"
@@ -64,6 +65,14 @@ type vRealLister struct {
 func (l *vRealLister) sync() {
 	segs := l.h.listing()
 	changed := false
+	if !l.put[-1000] {
+		l.put[-1000] = true
+		l.s3.PageSize = l.h.c.page
+		// filler objects that are no segment keys, sorting before every topic ("t…") and before manifest.json
+		for k := 0; k < l.h.c.fill; k++ {
+			l.s3.Put(fmt.Sprintf("a-fill/%06d", k), []byte("x"))
+		}
+	}
 	for i := range segs {
 		if l.put[i] {
 			continue
@@ -72,7 +81,11 @@ func (l *vRealLister) sync() {
 		changed = true
 		stem := vSegObjectKey(segs, i)
 		l.h.setKey(stem+".kfs", i)
-		l.s3.Put(stem+".kfs", []byte("records"+discovery.VerifC33FooterMagic))
+		if l.h.c.decoder == "real" {
+			l.s3.Put(stem+".kfs", vEncodeSegment(segs[i].offs))
+		} else {
+			l.s3.Put(stem+".kfs", []byte("records"+discovery.VerifC33FooterMagic))
+		}
 		l.s3.Put(stem+".index", []byte("idx"))
 		if !l.put[-1-segs[i].tp] {
 			l.put[-1-segs[i].tp] = true
@@ -126,6 +139,24 @@ func (l *vRealLister) ListCompleted(ctx context.Context) ([]discovery.SegmentRef
 		}
 	}
 	l.s3.Arm(arm)
+	// c<i> / h<i>: this tick's download of segment i is cut mid-body (stays armed until the next tick)
+	cuts := map[string]int{}
+	for _, x := range l.h.s3Oracle() {
+		if len(x) > 1 && (x[0] == 'c' || x[0] == 'h') {
+			if i, err := strconv.Atoi(x[1:]); err == nil && i >= 0 && i < len(segs) {
+				key := vSegObjectKey(segs, i) + ".kfs"
+				n := l.s3.Size(key) - 1
+				if x[0] == 'h' {
+					n = (n + 1) / 2
+					if n < 48 {
+						n = 48
+					}
+				}
+				cuts[key] = n
+			}
+		}
+	}
+	l.s3.ArmCuts(cuts)
 	refs, err := l.inner.ListCompleted(ctx)
 	l.s3.Arm(nil)
 	if err != nil {
@@ -152,6 +183,44 @@ func (d vDecoder) Decode(ctx context.Context, segmentKey, indexKey string, topic
 		out = append(out, decoder.Record{Topic: t, Partition: p, Offset: o, Timestamp: o, Value: []byte("v")})
 	}
 	return out, nil
+}
+
+// vEncodeSegment builds a segment object the way the broker lays it out: 32-byte header ("KAFS"…), one
+// record batch per record (61-byte v2 batch header + one record: attributes 0, timestamp delta 0, offset
+// delta 0, null key, value "v", no headers), 16-byte footer ending in the footer magic.
+func vEncodeSegment(offs []int64) []byte {
+	out := make([]byte, 32)
+	copy(out, "KAFS")
+	for _, o := range offs {
+		rec := []byte{0, 0, 0, 1, 2, 'v', 0} // attrs, tsDelta, offDelta, keyLen -1, valueLen 1, value, headers 0
+		rec = append([]byte{byte(len(rec) << 1)}, rec...)
+		b := make([]byte, 61)
+		binary.BigEndian.PutUint64(b[0:8], uint64(o))
+		binary.BigEndian.PutUint32(b[8:12], uint32(61-12+len(rec)))
+		b[16] = 2
+		binary.BigEndian.PutUint64(b[27:35], uint64(1000+o))
+		binary.BigEndian.PutUint64(b[35:43], uint64(1000+o))
+		binary.BigEndian.PutUint32(b[57:61], 1)
+		out = append(out, b...)
+		out = append(out, rec...)
+	}
+	foot := make([]byte, 16)
+	copy(foot[12:], discovery.VerifC33FooterMagic)
+	return append(out, foot...)
+}
+
+// vRealDecoder runs the module's REAL s3Decoder (download over the in-process S3 endpoint + decodeSegment)
+// inside the loop; the scripted decode fault of the segment is still honoured first.
+type vRealDecoder struct {
+	h     *vHarness
+	inner decoder.Decoder
+}
+
+func (d vRealDecoder) Decode(ctx context.Context, segmentKey, indexKey string, topic string, partition int32) ([]decoder.Record, error) {
+	if _, _, err := d.h.onDecode(segmentKey); err != nil {
+		return nil, err
+	}
+	return d.inner.Decode(ctx, segmentKey, indexKey, topic, partition)
 }
 
 type vStore struct {
@@ -221,11 +290,15 @@ func vRunCase(c *vCase, settle func()) []string {
 		}
 	}
 	var lister discovery.Lister = vLister{h}
+	var dec decoder.Decoder = vDecoder{h}
 	switch c.lister {
 	case "":
 	case "s3":
 		s3 := discovery.VerifC33NewS3()
 		lister = &vRealLister{h: h, s3: s3, inner: s3.VerifC33Lister(""), put: map[int]bool{}}
+		if c.decoder == "real" {
+			dec = vRealDecoder{h: h, inner: decoder.VerifC33NewDecoder(s3.VerifC33Client(), "b")}
+		}
 	case "manifest":
 		s3 := discovery.VerifC33NewS3()
 		lister = &vRealLister{h: h, s3: s3, inner: s3.VerifC33ManifestLister("", 0), manifest: true, put: map[int]bool{}}
@@ -238,7 +311,7 @@ func vRunCase(c *vCase, settle func()) []string {
 	p := &Processor{
 		cfg:      config.Config{},
 		discover: lister,
-		decode:   vDecoder{h},
+		decode:   dec,
 		store:    vStore{h: h, inner: real},
 		sink:     vSink{h},
 		locks:    newTopicLocker(),
